@@ -16,6 +16,7 @@ import VlsModel.Gen.FnB3OnchainPolicy
 import VlsModel.Gen.FnB3TestBuilder
 import VlsModel.Gen.FnB3NodeVal
 import VlsModel.Gen.FnB3ChannelVal
+import VlsModel.Gen.FnB3LogPrefix
 import VlsModel.Gen.Chain
 import VlsModel.Lemmas.FnGen
 /-
@@ -1826,5 +1827,23 @@ example : FnB3ChannelVal.Channel.validator (fun (n : Nat) => n + 1) (fun n => n 
   rw [(C05_fn_channel_validator _ _ _ _ _ (⟨none, 0⟩ : FnB3ChannelVal.ChannelStub Nat Nat)).1]
 
 end B3Val
+
+/-- (round 10, b3) `SimpleValidator::log_prefix` (the last function of simple_validator.rs outside the subset; its two
+    abbreviations — `node_id.to_string()[0..4]`, the first four bytes of the channel id in hex or `""` — are `let`-externals that
+    may panic on the slice): the two parts joined by `/`, a panic only from an abbreviation, the node part evaluated first.
+    It is only ever an argument of `debug!`: no validation outcome depends on it. -/
+theorem C05_fn_log_prefix (nodePart chanPart : Gen.FnB3LogPrefix.SimpleValidator → Rs.M String)
+    (v : Gen.FnB3LogPrefix.SimpleValidator) :
+    Gen.FnB3LogPrefix.SimpleValidator.log_prefix nodePart chanPart v
+      = match nodePart v with
+        | .error e => .error e
+        | .ok a => match chanPart v with
+          | .error e => .error e
+          | .ok b => .ok (a ++ "/" ++ b) := by
+  unfold Gen.FnB3LogPrefix.SimpleValidator.log_prefix
+  cases nodePart v <;> cases chanPart v <;> rfl
+
+example : Gen.FnB3LogPrefix.SimpleValidator.log_prefix (fun _ => .ok "02ab") (fun _ => .ok "") ⟨⟩ = .ok "02ab/" := by
+  rw [C05_fn_log_prefix]; rfl
 
 end VlsModel.Props.C05Fn
